@@ -9,6 +9,7 @@ CONSTANTS
   BodyMode = "len"
   StyleMode = "one"
   PhraseMode = "reg"
+  ManyMode = "none"
   MaxBig = 17
 INIT MCInit
 NEXT Next
